@@ -15,6 +15,7 @@ Lemma scan_app e acc ia eb b1 b2 :
   scan e acc ia eb (b1 ++ b2) = match scan e acc ia eb b1 with
                                 | Done t h rest => Done t h (rest ++ b2)
                                 | NeedMore e' acc' ia' eb' => scan e' acc' ia' eb' b2
+                                | Fail => Fail
                                 end.
 Proof.
   revert e acc ia eb. induction b1 as [|c b1 IH]; intros e acc ia eb; [reflexivity|].
@@ -22,7 +23,7 @@ Proof.
   - destruct (is_quote c); [apply IH|]. destruct (c =? 92); [apply IH|].
     destruct (is_ws c && negb (wl && ia && negb (c =? 10))); [|apply IH]. destruct ia; [reflexivity|apply IH].
   - apply IH.
-  - destruct (c =? q); apply IH.
+  - destruct (c =? q); [apply IH|]. destruct (c =? 10); [reflexivity|apply IH].
 Qed.
 
 Definition proj (r : res (option (list byte * bool * list byte * list (list byte)))) :=
@@ -40,12 +41,13 @@ Lemma refill_flat : forall chunks e acc ia eb,
                             | EQuote _ => Err
                             | _ => if ia' then Ok (Some (acc', false, [])) else Ok None
                             end
+  | Fail => Err
   end.
 Proof.
   induction chunks as [|c cs IH]; intros e acc ia eb.
   - cbn. destruct e; try reflexivity; destruct ia; reflexivity.
   - cbn [refill concat]. rewrite scan_app.
-    destruct (scan e acc ia eb c) as [t h rest|e' acc' ia' eb'] eqn:E; [reflexivity|].
+    destruct (scan e acc ia eb c) as [t h rest|e' acc' ia' eb'|] eqn:E; [reflexivity| |reflexivity].
     apply IH.
 Qed.
 
@@ -53,7 +55,7 @@ Theorem next_flat pending chunks :
   proj (next pending chunks) = flat_next (pending ++ concat chunks).
 Proof.
   unfold next, flat_next. rewrite scan_app.
-  destruct (scan ENone [] false false pending) as [t h rest|e acc ia eb] eqn:E; [reflexivity|].
+  destruct (scan ENone [] false false pending) as [t h rest|e acc ia eb|] eqn:E; [reflexivity| |reflexivity].
   apply refill_flat.
 Qed.
 
